@@ -23,13 +23,17 @@ package policy
 //@ ..  && (forall k string :: setHas(ks, k) ==> keyOK(gitID, env, k) && creditedKey(v, ps, k))
 //@ ..  && setLen(ps) <= setLen(ks)
 //@ define setsFresh(ps *set.Set[string], ks *set.Set[string]) bool = fresh(ps) && fresh(ks) && fresh(ps.contents) && fresh(ks.contents) && ps != ks && ps.contents != ks.contents
-//@ define noNilPrincipals(v *SignatureVerifier) bool = forall i :: 0 <= i && i < len(v.principals) ==> v.principals[i] != nil
+//@ define noNilPrincipals(v *SignatureVerifier) bool = forall i :: 0 <= i && i < len(v.principals) ==> notNil(v.principals[i])
 
 //@ func [C05] (*SignatureVerifier).Verify -> (r, err)
 //@   requires v != nil && v.repository != nil && noNilPrincipals(v)
 //@   assigns ghost faults, fresh(set.Set[string].contents), fresh(map map[string]struct{}), fresh(elems gitobject.Option), fresh(elems sslibdsse.Verifier), fresh(elems sigstoreverifieropts.Option)
 //@   ensures invalidVerifier: v.threshold < 1 || len(v.principals) < 1 ==> err == ErrInvalidVerifier && r == nil
 //@   ensures thresholdMet: err == nil && !v.verifyExhaustively ==> r != nil && setLen(r) >= v.threshold && v.threshold >= 1
+//@   ensures successHasSet: err == nil ==> r != nil
+//@   ensures resultFresh: r != nil ==> fresh(r) && r.contents != nil && fresh(r.contents)
+//@   ensures resultTrusted: r != nil ==> forall s string :: setHas(r, s) ==> trustedID(v, s)
+//@   ensures unmetHasSet: errIs(err, ErrVerifierConditionsUnmet) ==> r != nil && setLen(r) < v.threshold
 //@   ensures creditSound: r != nil ==> r == usedPrincipalIDs && credit(v, gitObjectID, env, usedPrincipalIDs, usedKeyIDs)
 //@   ensures oneGitCredit: r != nil && env == nil ==> setLen(r) <= 1
 //@   loop 1:
@@ -115,3 +119,57 @@ package policy
 //@     invariant refsUntouched: refTip == old(refTip) && refSet == old(refSet) && faults == old(faults)
 //@   loop 3:
 //@     invariant refsUntouched: refTip == old(refTip) && refSet == old(refSet) && faults == old(faults)
+
+//@ # ---- C01/C09/C11/C19: deciding one change against a list of rule verifiers ----
+//@ func (*SignatureVerifier).TrustedPrincipalIDs -> (r)
+//@   trusted
+//@   assigns fresh(set.Set[string].contents), fresh(map map[string]struct{})
+//@   ensures r != nil && fresh(r) && r.contents != nil && fresh(r.contents)
+//@   ensures forall k string :: setHas(r, k) <==> trustedID(v, k)
+
+//@ define okVerifiers(vs []*SignatureVerifier) bool = forall i :: 0 <= i && i < len(vs) ==> vs[i] != nil && vs[i].repository != nil && noNilPrincipals(vs[i]) && vs[i].name != ""
+//@ # satisfied(v, acc): acc holds at least threshold principals, all trusted by v
+//@ define trustedOnly(v *SignatureVerifier, acc *set.Set[string]) bool = forall k string :: setHas(acc, k) ==> trustedID(v, k)
+
+//@ func [C01,C11,C19] verifyGitObjectAndAttestationsUsingVerifiers -> (name, acc, rslNeeded, err)
+//@   requires okVerifiers(verifiers)
+//@   assigns ghost faults, fresh(set.Set[string].contents), fresh(map map[string]struct{}), fresh(elems gitobject.Option), fresh(elems sslibdsse.Verifier), fresh(elems sigstoreverifieropts.Option), fresh(elems string)
+//@   ensures noVerifiers: len(verifiers) == 0 ==> err == ErrNoVerifiers
+//@   ensures failureReturnsNothing: err != nil ==> name == "" && acc == nil && !rslNeeded
+//@   ensures byOneOfTheVerifiers: err == nil ==> name != "" && acc != nil && (exists i :: 0 <= i && i < len(verifiers) && verifiers[i].name == name)
+//@   ensures relaxationOnlyWhenMergeable: rslNeeded ==> verifyMergeable
+//@   # C19: "signature needed" means exactly one short of a threshold above one
+//@   ensures oneShort: err == nil && rslNeeded ==> (exists i :: 0 <= i && i < len(verifiers) && verifiers[i].name == name && verifiers[i].threshold > 1 && setLen(acc) >= verifiers[i].threshold - 1 && setLen(acc) < verifiers[i].threshold && trustedOnly(verifiers[i], acc))
+//@   # C01/C11: otherwise the rule that answered has at least threshold distinct trusted principals behind it
+//@   ensures thresholdMet: err == nil && !rslNeeded ==> (exists i :: 0 <= i && i < len(verifiers) && verifiers[i].name == name && (verifiers[i].verifyExhaustively || (verifiers[i].threshold >= 1 && setLen(acc) >= verifiers[i].threshold)))
+//@   # C11 (D1): a verifier that accepts without counting must not be what authorizes the change
+//@   ensures [C01,C11] notByExhaustiveVerifier: err == nil && !rslNeeded ==> (exists i :: 0 <= i && i < len(verifiers) && verifiers[i].name == name && verifiers[i].threshold >= 1 && setLen(acc) >= verifiers[i].threshold)
+//@   loop 1:
+//@     cut
+//@   loop 2:
+//@     invariant u0: verifier != nil && noNilPrincipals(verifier)
+//@     invariant u1: usedPrincipalIDs != nil
+//@     invariant u2: usedPrincipalIDs.contents != nil
+//@     invariant u3: fresh(usedPrincipalIDs) && fresh(usedPrincipalIDs.contents)
+//@     invariant u4: trustedPrincipalIDs != nil && fresh(trustedPrincipalIDs) && trustedPrincipalIDs.contents != nil
+//@     invariant u5: trustedPrincipalIDs != usedPrincipalIDs
+//@     invariant u6: trustedPrincipalIDs.contents != usedPrincipalIDs.contents
+//@     invariant trustedKept: forall k string :: setHas(trustedPrincipalIDs, k) <==> trustedID(verifier, k)
+//@   loop 3:
+//@     invariant u0: verifier != nil && noNilPrincipals(verifier)
+//@     invariant u1: usedPrincipalIDs != nil
+//@     invariant u2: usedPrincipalIDs.contents != nil
+//@     invariant u3: fresh(usedPrincipalIDs) && fresh(usedPrincipalIDs.contents)
+//@     invariant u4: trustedPrincipalIDs != nil && fresh(trustedPrincipalIDs) && trustedPrincipalIDs.contents != nil
+//@     invariant u5: trustedPrincipalIDs != usedPrincipalIDs
+//@     invariant u6: trustedPrincipalIDs.contents != usedPrincipalIDs.contents
+//@     invariant trustedKept: forall k string :: setHas(trustedPrincipalIDs, k) <==> trustedID(verifier, k)
+//@   loop 4:
+//@     invariant u0: verifier != nil && noNilPrincipals(verifier)
+//@     invariant u1: usedPrincipalIDs != nil
+//@     invariant u2: usedPrincipalIDs.contents != nil
+//@     invariant u3: fresh(usedPrincipalIDs) && fresh(usedPrincipalIDs.contents)
+//@     invariant u4: trustedPrincipalIDs != nil && fresh(trustedPrincipalIDs) && trustedPrincipalIDs.contents != nil
+//@     invariant u5: trustedPrincipalIDs != usedPrincipalIDs
+//@     invariant u6: trustedPrincipalIDs.contents != usedPrincipalIDs.contents
+//@     invariant trustedKept: forall k string :: setHas(trustedPrincipalIDs, k) <==> trustedID(verifier, k)
